@@ -266,16 +266,25 @@ Bytes structured(Tape &t, Ctx &c)
 	uint32_t skip = (fmt_size >= 18 && cb != 22) ? fmt_size - 18 : 0;
 	uint32_t skip_emitted = bigext ? skip : skip > 64 ? t.choose(65) : skip; // a huge declared extension is otherwise not supplied in full
 	uint32_t hdr = 12 + 8 + 16 + (fmt_size >= 18 ? 2 + (cb == 22 ? 22 : skip_emitted) : 0) + (fact ? 12 : 0) + 8;
+	// "wide" headers: every number rf_wavheader_tostring prints is as long as it can get (an unknown format, five-digit
+	// channel count, rate and sample count of 2^31 and more, which print as negative numbers through %d)
+	bool wide = c.feat(2) && t.weighted({ 15, 1 }) == 1;
+	uint32_t wide_rate = 0, wide_data = 0;
+	if (wide) {
+		wide_rate = t.flip() ? 0x80000000u + t.choose(1147483648u) : 1000000000u + t.choose(1147483647u);
+		wide_data = t.flip() ? 0x80000000u + t.choose(1147483648u) : 1000000000u + t.choose(1147483647u);
+		c.cls("widest-printable-fields");
+	}
 	id(0);
-	put32(b, pick32(t, hdr - 8 + frames * channels * bytes));
+	put32(b, wide ? (t.flip() ? 0xffffffffu : hdr - 8) : pick32(t, hdr - 8 + frames * channels * bytes));
 	id(1);
 	id(2);
 	put32(b, fmt_size);
-	put16(b, t.weighted({ 6, 1 }) == 0 ? (fmt_kind == 1 ? 3 : fmt_kind == 2 ? 0xfffe : 1) : t.choose(65536));
-	put16(b, pick16(t, channels, 8));
-	put32(b, pick32(t, rate));
+	put16(b, wide ? 0x1000 + t.choose(0xe000) : t.weighted({ 6, 1 }) == 0 ? (fmt_kind == 1 ? 3 : fmt_kind == 2 ? 0xfffe : 1) : t.choose(65536));
+	put16(b, wide ? 10000 + t.choose(55536) : pick16(t, channels, 8));
+	put32(b, wide ? wide_rate : pick32(t, rate));
 	put32(b, pick32(t, rate * channels * bytes));
-	put16(b, t.weighted({ 5, 2, 1 }) == 0 ? channels * bytes : t.flip() ? 0 : pick16(t, channels * bytes, 1)); // block_align 0 is interesting
+	put16(b, wide ? 1 : t.weighted({ 5, 2, 1 }) == 0 ? channels * bytes : t.flip() ? 0 : pick16(t, channels * bytes, 1)); // block_align 0 is interesting
 	put16(b, pick16(t, bytes * 8, 6)); // sample widths below one byte are interesting too
 	if (fmt_size >= 18) {
 		put16(b, cb);
@@ -297,7 +306,7 @@ Bytes structured(Tape &t, Ctx &c)
 		put32(b, frames * channels);
 	}
 	id(4);
-	put32(b, pick32(t, frames * channels * bytes));
+	put32(b, wide ? wide_data : pick32(t, frames * channels * bytes));
 	// length manipulations: exact, truncated, or with trailing bytes (sample data)
 	switch (t.weighted({ 5, 3, 3 })) {
 	case 1:
